@@ -23,9 +23,8 @@
 //!
 //! Configuration B (`Mode::Manager`): 2-4 real `GossipMembershipManager`s on
 //! `net::SimTransport`, every timer path and every delivery decided by the
-//! step list. Only clauses (2) and (3) are judged there (the manager adds its
-//! own observations - "sender is healthy" - which are not part of "the same
-//! set of updates").
+//! step list. Clauses (2) and (3) are judged on every manager after every
+//! step; clause (1) between each manager and its shadow (below).
 //!
 //! Configuration C (`Mode::Threads`): ONE real `GossipMembershipManager`
 //! (member n0, peers n1..) that receives the membership updates of the case
@@ -48,6 +47,32 @@
 //! "every permutation and batching of their delivery, interleaved with local
 //! ... events" and "a node's recorded incarnation ... never decrease" do not
 //! exempt overlapping deliveries, so configuration C gives verdicts.
+//!
+//! Registration and the other local entry points (B, C, D). Which members a
+//! manager has registered with `add_peer` before the first step is part of the
+//! case (`pre_peers`, any subset), `AddPeer` is a step kind that can occur at
+//! any point - before or after gossip has told the node about the member - and
+//! `LocalCall` drives the public entry points that are neither message handlers
+//! nor timers (heal progress, bidirectional probes, flap records, callback
+//! registration, readers, shutdown). None of them is a membership update: the
+//! clauses are judged across them unchanged.
+//!
+//! Clause (1) between real managers. Configuration B gives every manager a
+//! *shadow*: a second real manager with the same identity, configuration and
+//! registration whose sends go nowhere. Every input the manager receives from
+//! the other real managers (whole Sync messages as they were put on the wire -
+//! bounded state lists, real sender times - and its registrations) is also put
+//! on the shadow's backlog; `ShadowDeliver{pick}` / `ShadowDup{pick}` hand
+//! backlog items to the shadow in any order and repetition, and the rest is
+//! handed over at the end of the run in an order given by the case. Whenever
+//! the backlog is empty manager and shadow have received the same set of
+//! messages, in different orders. Configuration D (`Mode::Twins`) does the same
+//! with 2-4 managers of identity n0 and Sync messages built from the multiset
+//! (any sender, sender_time, grouping), see `run_d`. What is compared, and why
+//! not the health of members a manager has stamped with its own clock, is
+//! stated at `compare_views`. A manager that had a local suspect / refute /
+//! mark-healthy / fail input (Suspect, Alive, PingAck message, `suspect_node`)
+//! leaves the comparison, like a tainted replica of configuration A.
 //!
 //! Who "announces" an incarnation (clause 3). In the API an incarnation of
 //! member m originates from m in exactly three ways: its own node state
@@ -78,10 +103,11 @@ use crate::sched;
 use serde::{Deserialize, Serialize};
 use serde_json::{json, Value};
 use std::collections::{BTreeMap, BTreeSet};
-use std::sync::atomic::{AtomicBool, Ordering};
+use std::sync::atomic::{AtomicBool, AtomicU64, Ordering};
 use std::sync::{Arc, Mutex, MutexGuard};
+use std::time::Instant;
 use tensor_chain::gossip::{GossipConfig, GossipMembershipManager, GossipMessage, GossipNodeState, LWWMembershipState};
-use tensor_chain::membership::NodeHealth;
+use tensor_chain::membership::{ClusterView, MembershipCallback, NodeHealth};
 use tensor_chain::network::Message;
 
 /// One membership update of the multiset (a node state on the wire).
@@ -121,13 +147,64 @@ pub enum Step {
     NetDup { pick: u8 },
     // ---- configuration C: calls into the one manager n0 (also `Round`, `SuspectNode`, `Advance`; their `r` is ignored) ----
     /// `handle_gossip(Sync{sender: a peer, states: the listed multiset updates, sender_time: time})`
-    MsgSync { from: u8, items: Vec<u8>, time: u8 },
+    /// (`r`: the twin it is delivered to in configuration D; ignored in C)
+    MsgSync {
+        #[serde(default)]
+        r: u8,
+        from: u8,
+        items: Vec<u8>,
+        time: u8,
+    },
     /// `handle_gossip(Alive{m, inc})`: m announces `inc`
-    MsgAlive { m: u8, inc: u8 },
+    MsgAlive {
+        #[serde(default)]
+        r: u8,
+        m: u8,
+        inc: u8,
+    },
     /// `handle_gossip(Suspect{reporter: a peer, suspect: m, incarnation: inc})`
-    MsgSuspect { from: u8, m: u8, inc: u8 },
+    MsgSuspect {
+        #[serde(default)]
+        r: u8,
+        from: u8,
+        m: u8,
+        inc: u8,
+    },
     /// `handle_gossip(PingAck{origin: a peer, target: m, sequence: 0, success: ok})`
-    MsgPingAck { from: u8, m: u8, ok: bool },
+    MsgPingAck {
+        #[serde(default)]
+        r: u8,
+        from: u8,
+        m: u8,
+        ok: bool,
+    },
+    // ---- configurations B, C, D: registration and the remaining public local entry points of the manager ----
+    /// `add_peer(n{m})` on manager r (C: the one manager; D: twin r) at any point of the run
+    AddPeer {
+        #[serde(default)]
+        r: u8,
+        m: u8,
+    },
+    /// one of the public entry points that are neither message handlers nor timers (see `local_call`), about member m
+    LocalCall {
+        #[serde(default)]
+        r: u8,
+        m: u8,
+        kind: u8,
+    },
+    /// C, D: `handle_gossip(BidirectionalProbe{origin: a peer, probe_id: id, ..})` / `BidirectionalAck{.., responder: a peer}`
+    MsgBidir {
+        #[serde(default)]
+        r: u8,
+        from: u8,
+        id: u8,
+        ack: bool,
+    },
+    // ---- configuration B: the shadow of manager r (same identity, receives what r received, in its own order) ----
+    /// hand one of the inputs r has received and its shadow has not (picked from the backlog) to the shadow
+    ShadowDeliver { r: u8, pick: u8 },
+    /// the same without removing it from the backlog (the shadow will see it again)
+    ShadowDup { r: u8, pick: u8 },
 }
 
 #[derive(Serialize, Deserialize, Clone, Copy, Debug, PartialEq)]
@@ -136,6 +213,7 @@ pub enum Mode {
     Local,
     Manager,
     Threads,
+    Twins,
 }
 
 #[derive(Serialize, Deserialize, Clone, Debug)]
@@ -155,6 +233,23 @@ pub struct Case {
     /// baton schedule (see `sched::run_threads`)
     #[serde(default)]
     pub schedule: Vec<u8>,
+    /// configurations B, C, D: who is registered with `add_peer` before the first step. Bit `4*i + j`:
+    /// manager i registers member j at the start (C, D: i = 0). Replay files written before the field
+    /// existed registered everybody up front.
+    #[serde(default = "all_pre_registered")]
+    pub pre_peers: u16,
+    /// configuration B: order in which the backlog of a shadow is handed over at the end of the run
+    /// (0 oldest first, 1 newest first, 2 alternating ends)
+    #[serde(default)]
+    pub flush: u8,
+}
+
+fn all_pre_registered() -> u16 {
+    u16::MAX
+}
+
+fn pre_registered(case: &Case, i: usize, j: usize) -> bool {
+    (case.pre_peers >> ((4 * i + j) % 16)) & 1 == 1
 }
 
 pub struct C17;
@@ -300,6 +395,7 @@ fn depth_probes(ctx: &RunCtx, cfg: char, before: &[Val], after: &[Val]) {
     let (failed_pos, raised) = match cfg {
         'B' => ("mgr_failed_at_refuted_incarnation", "mgr_incarnation_raised"),
         'C' => ("thr_failed_at_refuted_incarnation", "thr_incarnation_raised"),
+        'D' => ("twin_failed_at_positive_incarnation", "twin_incarnation_raised"),
         _ => ("failed_recorded_at_positive_incarnation", "incarnation_raised"),
     };
     for (m, h, inc, _) in after {
@@ -668,6 +764,172 @@ fn msg_line(m: &Message) -> String {
     }
 }
 
+/// callback handed to `register_callback`: counts, nothing else
+struct CountCb(AtomicU64);
+impl MembershipCallback for CountCb {
+    fn on_health_change(&self, _node: &String, _old: NodeHealth, _new: NodeHealth) {
+        self.0.fetch_add(1, Ordering::Relaxed);
+    }
+    fn on_view_change(&self, _view: &ClusterView) {}
+}
+
+const LOCAL_KINDS: u8 = 13;
+
+/// The public entry points of `GossipMembershipManager` that are neither
+/// message handlers nor the round timer nor `add_peer` / `suspect_node` (those
+/// have step kinds of their own): heal-progress bookkeeping, bidirectional
+/// probes, flap records, callback registration, the readers, shutdown. None of
+/// them is a membership update, so the clauses are judged across them unchanged.
+/// Must run inside the runtime handle (`send_bidirectional_probe` spawns its send).
+fn local_call(mgr: &GossipMembershipManager, m: &String, kind: u8) -> &'static str {
+    match kind % LOCAL_KINDS {
+        0 => {
+            mgr.record_heal_progress(m, None);
+            "record_heal_progress"
+        },
+        1 => {
+            mgr.record_heal_progress(m, Some(Instant::now()));
+            "record_heal_progress(partition_start)"
+        },
+        2 => {
+            let _ = mgr.is_heal_confirmed(m, 1);
+            "is_heal_confirmed"
+        },
+        3 => {
+            mgr.clear_heal_progress(m);
+            "clear_heal_progress"
+        },
+        4 => {
+            mgr.clear_heal_progress_batch(std::slice::from_ref(m));
+            "clear_heal_progress_batch"
+        },
+        5 => {
+            mgr.reset_heal_progress(m);
+            "reset_heal_progress"
+        },
+        6 => {
+            mgr.send_bidirectional_probe(m);
+            "send_bidirectional_probe"
+        },
+        7 => {
+            mgr.expire_bidirectional_probes();
+            "expire_bidirectional_probes"
+        },
+        8 => {
+            mgr.reset_stable_flap_records();
+            "reset_stable_flap_records"
+        },
+        9 => {
+            mgr.clear_connectivity(m);
+            "clear_connectivity"
+        },
+        10 => {
+            mgr.register_callback(Arc::new(CountCb(AtomicU64::new(0))));
+            "register_callback"
+        },
+        11 => {
+            let _ = (mgr.node_state(m), mgr.all_states().len(), mgr.node_count(), mgr.health_counts(), mgr.round_count());
+            let _ = (mgr.healing_nodes().len(), mgr.is_in_flap_backoff(m), mgr.flap_count(m), mgr.connectivity_status(m).is_some());
+            let _ = (mgr.is_bidirectional_confirmed(m), mgr.check_sequence_exhaustion(), mgr.incarnation_rejected_count());
+            "readers"
+        },
+        _ => {
+            mgr.shutdown();
+            "shutdown"
+        },
+    }
+}
+
+/// One manager's side of a clause (1) comparison.
+struct Side<'a> {
+    who: String,
+    view: &'a [Val],
+    /// members whose entry this node has stamped with its OWN clock: the sender of
+    /// every Sync it handled (`handle_sync` merges `sender Healthy @ local time + 1`)
+    /// and members for which a late `add_peer` wrote the Unknown placeholder
+    /// (`@ local time + 1`). Such a stamp is a local observation, made at a time that
+    /// depends on the delivery order; it is not one of "the same set of membership
+    /// updates", and which of it and an update of equal incarnation wins is a
+    /// matter of the local time. It never carries an incarnation of its own (it
+    /// re-uses the recorded one, or 0 for a member not recorded at all).
+    stamped: &'a BTreeSet<u8>,
+    hist: String,
+}
+
+/// Clause (1) between two real managers:
+/// "Two nodes that have received the same set of membership updates hold
+///  identical views of every member's health and incarnation, regardless of
+///  the order, grouping or repetition in which the updates arrived."
+/// The caller guarantees: same identity, same configuration, same members
+/// registered, same set of update values received inside Sync messages, and no
+/// other input (no Alive / Suspect / PingAck message, no `suspect_node`) on either
+/// side. Judged: the incarnation of every member both hold; the health of every
+/// member neither side has stamped with its own clock (see `Side::stamped`); a
+/// member that one side holds un-stamped must be held by the other side too.
+fn compare_views(cfg: &str, key: &str, a: &Side, b: &Side) -> Option<Violation> {
+    let members: BTreeSet<u8> = a.view.iter().chain(b.view.iter()).map(|v| v.0).collect();
+    for m in members {
+        let x = a.view.iter().find(|v| v.0 == m);
+        let y = b.view.iter().find(|v| v.0 == m);
+        let what = match (x, y) {
+            (Some(x), Some(y)) => {
+                if x.2 != y.2 {
+                    Some("incarnation")
+                } else if x.1 != y.1 && !a.stamped.contains(&m) && !b.stamped.contains(&m) {
+                    Some("health")
+                } else {
+                    None
+                }
+            },
+            (Some(_), None) if !a.stamped.contains(&m) => Some("member"),
+            (None, Some(_)) if !b.stamped.contains(&m) => Some("member"),
+            _ => None,
+        };
+        if let Some(what) = what {
+            return Some(Violation {
+                class: format!("c1-convergence-{what}-differs:{cfg}"),
+                detail: format!(
+                    "same set of updates received {key}, different views of member n{m}: {} holds {} (history: {}); {} holds {} (history: {})",
+                    a.who,
+                    show(a.view),
+                    a.hist,
+                    b.who,
+                    show(b.view),
+                    b.hist
+                ),
+            });
+        }
+    }
+    None
+}
+
+/// what a shadow still has to receive
+#[derive(Clone)]
+enum ShItem {
+    Msg(GossipMessage, String),
+    AddPeer(u8),
+}
+
+#[derive(Default)]
+struct Pair {
+    backlog: Vec<ShItem>,
+    /// the manager (or its shadow) had an input other than Sync messages and registration
+    tainted: bool,
+    stamped_p: BTreeSet<u8>,
+    stamped_s: BTreeSet<u8>,
+    mono_s: Mono,
+    last_s: Vec<Val>,
+    hist_p: Vec<String>,
+    hist_s: Vec<String>,
+    /// Sync messages handed to the shadow so far
+    syncs_s: u64,
+    /// the shadow received something in another order than the manager
+    reordered: bool,
+    /// greatest sender_time handled so far, per sender (manager / shadow)
+    times_p: BTreeMap<u8, u64>,
+    times_s: BTreeMap<u8, u64>,
+}
+
 fn run_b(case: &Case, ctx: &Arc<RunCtx>) -> RunOut {
     let mut out = RunOut::default();
     let n = case.replicas.clamp(2, 4) as usize;
@@ -707,23 +969,99 @@ fn run_b(case: &Case, ctx: &Arc<RunCtx>) -> RunOut {
     };
     let mgrs: Vec<GossipMembershipManager> =
         all.iter().map(|me| GossipMembershipManager::new(me.clone(), cfg.clone(), SimTransport::new(me, &all, &net))).collect();
-    for (i, m) in mgrs.iter().enumerate() {
+    // The shadow of manager i: a second node with the same identity, configuration and
+    // registration, on a network of its own (what it sends goes nowhere). It receives the
+    // inputs manager i received from the real managers - whole Sync messages as they were
+    // put on the wire, and the registrations - in an order of its own (`ShadowDeliver`,
+    // `ShadowDup`, the flush at the end): the second of the "two nodes that have received
+    // the same set of membership updates".
+    let shadow_nets: Vec<crate::net::Net> = (0..n).map(|_| new_net()).collect();
+    let shadows: Vec<GossipMembershipManager> = all
+        .iter()
+        .enumerate()
+        .map(|(i, me)| GossipMembershipManager::new(me.clone(), cfg.clone(), SimTransport::new(me, &all, &shadow_nets[i])))
+        .collect();
+    for i in 0..n {
         for (j, p) in all.iter().enumerate() {
-            if i != j {
-                m.add_peer(p.clone());
+            if i != j && pre_registered(case, i, j) {
+                mgrs[i].add_peer(p.clone());
+                shadows[i].add_peer(p.clone());
             }
         }
     }
-    ctx.event(&format!("B managers={n} fanout={} max_states={} suspicion_timeout_ms={}", cfg.fanout, cfg.max_states_per_message, cfg.suspicion_timeout_ms));
+    ctx.event(&format!(
+        "B managers={n} fanout={} max_states={} suspicion_timeout_ms={} pre_registered={:#06x}",
+        cfg.fanout, cfg.max_states_per_message, cfg.suspicion_timeout_ms, case.pre_peers
+    ));
 
     // every member starts by announcing incarnation 0 (constructor)
     let mut announced = vec![0u64; n];
     let mut monos: Vec<Mono> = (0..n).map(|_| Mono::default()).collect();
     let mut lasts: Vec<Vec<Val>> = vec![Vec::new(); n];
+    let mut pairs: Vec<Pair> = (0..n).map(|_| Pair::default()).collect();
     let mut last_id = 0u64;
     let mut log: Vec<String> = Vec::new();
     let mut sync_changed = 0u64;
     let mut failed_seen = false;
+    let mut comparisons = 0u64;
+
+    // hand one backlog item to the shadow of r; clauses (2)/(3) on the shadow
+    let to_shadow = |r: usize, item: ShItem, pairs: &mut Vec<Pair>, announced: &[u64], tag: &str| -> Result<Option<Violation>, String> {
+        let p = &mut pairs[r];
+        let op: &'static str;
+        {
+            let _e = rt.enter();
+            match item {
+                ShItem::Msg(g, line) => {
+                    if let GossipMessage::Sync { sender, sender_time, .. } = &g {
+                        let s = member_idx(sender);
+                        p.stamped_s.insert(s);
+                        p.syncs_s += 1;
+                        let t0 = p.times_s.entry(s).or_insert(0);
+                        if *sender_time < *t0 {
+                            ctx.probe("mgr_shadow_sync_older_than_previous_from_sender");
+                        }
+                        *t0 = (*t0).max(*sender_time);
+                    }
+                    shadows[r].handle_gossip(g);
+                    p.hist_s.push(format!("{tag} {line}"));
+                    op = "shadow_deliver";
+                },
+                ShItem::AddPeer(m) => {
+                    if shadows[r].node_state(&name(m as usize)).is_none() {
+                        p.stamped_s.insert(m);
+                    }
+                    shadows[r].add_peer(name(m as usize));
+                    p.hist_s.push(format!("{tag} add_peer(n{m})"));
+                    op = "shadow_add_peer";
+                },
+            }
+        }
+        drain(&rt)?;
+        let view = view_of(shadows[r].membership_view().iter());
+        let lam = shadows[r].lamport_time();
+        ctx.event(&format!("   shadow of n{r}: {} -> {} L={lam}", p.hist_s.last().map(String::as_str).unwrap_or(""), show(&view)));
+        p.last_s = view.clone();
+        let hs = p.hist_s.clone();
+        let h = move || format!("shadow of n{r}: {}", hs.join("; "));
+        Ok(check_backwards("B", op, r, &mut p.mono_s, &view, lam, announced, &h))
+    };
+    // clause (1) between manager r and its shadow, once the shadow has caught up
+    let compare_pair = |r: usize, pairs: &Vec<Pair>, comparisons: &mut u64| -> Option<Violation> {
+        let p = &pairs[r];
+        if p.tainted || !p.backlog.is_empty() || p.syncs_s == 0 {
+            return None;
+        }
+        *comparisons += 1;
+        ctx.probe("mgr_same_set_compared");
+        if p.reordered {
+            ctx.probe("mgr_same_set_compared_after_reordering");
+        }
+        let view = view_of(mgrs[r].membership_view().iter());
+        let a = Side { who: format!("manager n{r}"), view: &view, stamped: &p.stamped_p, hist: p.hist_p.join("; ") };
+        let b = Side { who: format!("the shadow of n{r} (same inputs, own order)"), view: &p.last_s, stamped: &p.stamped_s, hist: p.hist_s.join("; ") };
+        compare_views("B", "(every message and registration manager and shadow received is in both histories)", &a, &b)
+    };
 
     for (sn, step) in case.steps.iter().enumerate() {
         let op: &'static str;
@@ -744,6 +1082,8 @@ fn run_b(case: &Case, ctx: &Arc<RunCtx>) -> RunOut {
                 }
                 let _e = rt.enter();
                 let _ = now_or_never(mgrs[r].suspect_node(&name(m)));
+                // a local suspect event: the manager's input is no longer "updates only"
+                pairs[r].tainted = true;
                 log.push(format!("s{sn} n{r}.suspect_node(n{m})"));
                 ctx.fp("Bs");
                 ctx.probe("mgr_suspect_node");
@@ -752,6 +1092,65 @@ fn run_b(case: &Case, ctx: &Arc<RunCtx>) -> RunOut {
             Step::Advance { ms } => {
                 ctx.advance_ms(u64::from(*ms));
                 log.push(format!("s{sn} advance {ms}ms"));
+                continue;
+            },
+            Step::AddPeer { r, m } => {
+                let (r, m) = (*r as usize % n, *m as usize % n);
+                if mgrs[r].node_state(&name(m)).is_none() {
+                    // the placeholder will carry this manager's own time
+                    pairs[r].stamped_p.insert(m as u8);
+                } else if r != m && !pre_registered(case, r, m) {
+                    ctx.probe("mgr_add_peer_of_known_member");
+                }
+                mgrs[r].add_peer(name(m));
+                pairs[r].backlog.push(ShItem::AddPeer(m as u8));
+                pairs[r].hist_p.push(format!("s{sn} add_peer(n{m})"));
+                log.push(format!("s{sn} n{r}.add_peer(n{m})"));
+                ctx.fp("Ba");
+                op = "add_peer";
+            },
+            Step::LocalCall { r, m, kind } => {
+                let (r, m) = (*r as usize % n, *m as usize % n);
+                let _e = rt.enter();
+                let what = local_call(&mgrs[r], &name(m), *kind);
+                log.push(format!("s{sn} n{r}.{what}(n{m})"));
+                ctx.fp("Bl");
+                ctx.probe("mgr_local_call");
+                op = "local_call";
+            },
+            Step::ShadowDeliver { r, pick } | Step::ShadowDup { r, pick } => {
+                let r = *r as usize % n;
+                let dup = matches!(step, Step::ShadowDup { .. });
+                if pairs[r].backlog.is_empty() {
+                    continue;
+                }
+                let i = *pick as usize % pairs[r].backlog.len();
+                if i > 0 {
+                    pairs[r].reordered = true;
+                    ctx.fault_fired("shadow_reordered");
+                }
+                let item = if dup { pairs[r].backlog[i].clone() } else { pairs[r].backlog.remove(i) };
+                if dup {
+                    ctx.fault_fired("shadow_duplicate");
+                }
+                match to_shadow(r, item, &mut pairs, &announced, &format!("s{sn}")) {
+                    Err(e) => {
+                        out.harness_error = Some(e);
+                        return out;
+                    },
+                    Ok(Some(v)) => {
+                        out.violation = Some(v);
+                        out.nontrivial = true;
+                        return out;
+                    },
+                    Ok(None) => {},
+                }
+                ctx.fp(if dup { "Bxd" } else { "Bx" });
+                if let Some(v) = compare_pair(r, &pairs, &mut comparisons) {
+                    out.violation = Some(v);
+                    out.nontrivial = true;
+                    return out;
+                }
                 continue;
             },
             Step::NetDeliver { pick } | Step::NetDup { pick } => {
@@ -792,12 +1191,27 @@ fn run_b(case: &Case, ctx: &Arc<RunCtx>) -> RunOut {
                         let before = view_of(mgrs[to].membership_view().iter());
                         // the tie of clause (1) arising in real manager traffic: a state on the wire with
                         // the incarnation and timestamp the receiver already holds, but another health
-                        if let GossipMessage::Sync { states, .. } = &g {
+                        if let GossipMessage::Sync { states, sender, sender_time } = &g {
                             let wire = view_of(states.iter());
                             if wire.iter().any(|w| before.iter().any(|b| b.0 == w.0 && b.2 == w.2 && b.3 == w.3 && b.1 != w.1)) {
                                 ctx.probe("mgr_tie_on_the_wire");
                             }
+                            let s = member_idx(sender);
+                            pairs[to].stamped_p.insert(s);
+                            let t0 = pairs[to].times_p.entry(s).or_insert(0);
+                            if *sender_time < *t0 {
+                                ctx.probe("mgr_sync_older_than_previous_from_sender");
+                            }
+                            *t0 = (*t0).max(*sender_time);
                         }
+                        match &g {
+                            // suspect / refute / mark-healthy events: local events of the statement's quantifier,
+                            // after which this manager's input is no longer "updates only"
+                            GossipMessage::Suspect { .. } | GossipMessage::Alive { .. } | GossipMessage::PingAck { .. } => pairs[to].tainted = true,
+                            _ => {},
+                        }
+                        pairs[to].backlog.push(ShItem::Msg(g.clone(), line.clone()));
+                        pairs[to].hist_p.push(format!("s{sn} {line}"));
                         let _e = rt.enter();
                         mgrs[to].handle_gossip(g);
                         let after = view_of(mgrs[to].membership_view().iter());
@@ -833,7 +1247,7 @@ fn run_b(case: &Case, ctx: &Arc<RunCtx>) -> RunOut {
                 log.push(format!("s{sn} drop {}->{} {}", f.from, f.to, msg_line(&f.msg)));
                 continue;
             },
-            _ => continue, // configuration A steps: nothing to act on
+            _ => continue, // steps of the other configurations: nothing to act on
         }
         if let Err(e) = drain(&rt) {
             out.harness_error = Some(e);
@@ -875,6 +1289,52 @@ fn run_b(case: &Case, ctx: &Arc<RunCtx>) -> RunOut {
             }
         }
     }
+    // the end of the run: every shadow whose manager had updates only receives the rest of
+    // its backlog (order from the case), then both have received the same set
+    for r in 0..n {
+        if pairs[r].tainted || pairs[r].backlog.is_empty() {
+            continue;
+        }
+        let mut k = 0usize;
+        while !pairs[r].backlog.is_empty() {
+            let len = pairs[r].backlog.len();
+            let i = match case.flush % 3 {
+                0 => 0,
+                1 => len - 1,
+                _ => {
+                    if k % 2 == 0 {
+                        len - 1
+                    } else {
+                        0
+                    }
+                },
+            };
+            if i > 0 {
+                pairs[r].reordered = true;
+                ctx.fault_fired("shadow_reordered");
+            }
+            k += 1;
+            let item = pairs[r].backlog.remove(i);
+            match to_shadow(r, item, &mut pairs, &announced, "end") {
+                Err(e) => {
+                    out.harness_error = Some(e);
+                    return out;
+                },
+                Ok(Some(v)) => {
+                    out.violation = Some(v);
+                    out.nontrivial = true;
+                    return out;
+                },
+                Ok(None) => {},
+            }
+        }
+        if let Some(v) = compare_pair(r, &pairs, &mut comparisons) {
+            out.violation = Some(v);
+            out.nontrivial = true;
+            return out;
+        }
+    }
+    out.inner_evals = comparisons;
     out.nontrivial = sync_changed > 0;
     out
 }
@@ -896,12 +1356,16 @@ struct CShared {
     viol: Option<Violation>,
     view_changes: u64,
     overlapped: bool,
+    /// members registered with add_peer so far (only feeds a probe)
+    registered: BTreeSet<u8>,
 }
 
 enum CCall {
     Gossip(GossipMessage),
     SuspectNode(String),
     Round,
+    AddPeer(String),
+    Local(String, u8),
 }
 
 struct CWorld {
@@ -939,7 +1403,7 @@ impl CWorld {
         // a member other than the manager itself (senders / reporters of messages)
         let peer = |x: u8| 1 + (x as usize % (n - 1));
         let (line, subject, call, op): (String, Option<u8>, CCall, &'static str) = match step {
-            Step::MsgSync { from, items, time } => {
+            Step::MsgSync { from, items, time, .. } => {
                 let f = peer(*from);
                 let bv: Vec<Val> = items.iter().map(|i| *i as usize).filter(|i| *i < self.vals.len()).map(|i| self.vals[i]).collect();
                 let states: Vec<GossipNodeState> =
@@ -954,7 +1418,7 @@ impl CWorld {
                     "sync",
                 )
             },
-            Step::MsgAlive { m, inc } => {
+            Step::MsgAlive { m, inc, .. } => {
                 let m = *m as usize % n;
                 (
                     format!("Alive(n{m} inc{inc})"),
@@ -963,7 +1427,7 @@ impl CWorld {
                     "alive",
                 )
             },
-            Step::MsgSuspect { from, m, inc } => {
+            Step::MsgSuspect { from, m, inc, .. } => {
                 let (f, m) = (peer(*from), *m as usize % n);
                 (
                     format!("Suspect(n{m} inc{inc} by n{f})"),
@@ -972,7 +1436,7 @@ impl CWorld {
                     "suspect",
                 )
             },
-            Step::MsgPingAck { from, m, ok } => {
+            Step::MsgPingAck { from, m, ok, .. } => {
                 let (f, m) = (peer(*from), *m as usize % n);
                 (
                     format!("PingAck(n{f} about n{m} ok={ok})"),
@@ -992,6 +1456,30 @@ impl CWorld {
                 self.ctx.advance_ms(self.interval_ms);
                 ("gossip_round".to_string(), None, CCall::Round, "gossip_round")
             },
+            Step::AddPeer { m, .. } => {
+                let m = *m as usize % n;
+                // probe: registration of a member the node already holds without having registered it
+                // (learnt through gossip); the read is one more call into the manager
+                let known = self.mgr.node_state(&name(m)).is_some();
+                let first = self.sh().registered.insert(m as u8);
+                if known && first && m != 0 {
+                    self.ctx.probe("thr_add_peer_of_known_member");
+                }
+                (format!("add_peer(n{m})"), Some(m as u8), CCall::AddPeer(name(m)), "add_peer")
+            },
+            Step::LocalCall { m, kind, .. } => {
+                let m = *m as usize % n;
+                (format!("local_call#{}(n{m})", kind % LOCAL_KINDS), None, CCall::Local(name(m), *kind), "local_call")
+            },
+            Step::MsgBidir { from, id, ack, .. } => {
+                let f = peer(*from);
+                let g = if *ack {
+                    GossipMessage::BidirectionalAck { origin: name(0), probe_id: u64::from(*id), responder: name(f) }
+                } else {
+                    GossipMessage::BidirectionalProbe { origin: name(f), probe_id: u64::from(*id), timestamp: 0 }
+                };
+                (format!("Bidirectional{}(n{f} #{id})", if *ack { "Ack" } else { "Probe" }), None, CCall::Gossip(g), "bidir")
+            },
             Step::Advance { ms } => {
                 self.ctx.advance_ms(u64::from(*ms));
                 let line = format!("t{t}.{tag} advance {ms}ms");
@@ -1003,7 +1491,7 @@ impl CWorld {
         };
         {
             let mut g = self.sh();
-            if let Step::MsgAlive { m, inc } = step {
+            if let Step::MsgAlive { m, inc, .. } = step {
                 // the Alive message was sent by m: from now on m has announced inc
                 let m = *m as usize % n;
                 g.announced[m] = g.announced[m].max(u64::from(*inc));
@@ -1029,6 +1517,10 @@ impl CWorld {
                 },
                 CCall::Round => {
                     let _ = now_or_never(self.mgr.gossip_round());
+                },
+                CCall::AddPeer(m) => self.mgr.add_peer(m),
+                CCall::Local(m, kind) => {
+                    let _ = local_call(&self.mgr, &m, kind);
                 },
             }
         }
@@ -1134,21 +1626,26 @@ fn run_c(case: &Case, ctx: &Arc<RunCtx>) -> RunOut {
     };
     let interval_ms = cfg.gossip_interval_ms;
     let mgr = GossipMembershipManager::new(name(0), cfg, SimTransport::new(&name(0), &all, &net));
-    for p in all.iter().skip(1) {
-        mgr.add_peer(p.clone());
+    let mut registered = BTreeSet::new();
+    for (j, p) in all.iter().enumerate().skip(1) {
+        if pre_registered(case, 0, j) {
+            mgr.add_peer(p.clone());
+            registered.insert(j as u8);
+        }
     }
     let (vals, announced_ms) = effective_vals(case, members);
     let nthreads = case.threads.len().min(3);
     ctx.event(&format!(
-        "C members={members} threads={nthreads} suspicion_timeout_ms={} multiset={}",
+        "C members={members} threads={nthreads} suspicion_timeout_ms={} pre_registered={:#06x} multiset={}",
         case.susp_ms.max(1),
+        case.pre_peers,
         vals.iter().enumerate().map(|(i, v)| format!("#{i}={}", show(&[*v]))).collect::<Vec<_>>().join(" ")
     ));
     let world = Arc::new(CWorld {
         mgr,
         rt,
         ctx: ctx.clone(),
-        sh: Mutex::new(CShared { announced: announced_ms, inflight: vec![None; nthreads.max(1)], ..CShared::default() }),
+        sh: Mutex::new(CShared { announced: announced_ms, inflight: vec![None; nthreads.max(1)], registered, ..CShared::default() }),
         vals,
         members,
         interval_ms,
@@ -1226,6 +1723,323 @@ fn run_c(case: &Case, ctx: &Arc<RunCtx>) -> RunOut {
     }
     world.observe(0, "end", "final");
     finish(&world, out)
+}
+
+// ---------------------------------------------------------------------------
+// configuration D
+// ---------------------------------------------------------------------------
+
+struct Twin {
+    mgr: GossipMembershipManager,
+    net: crate::net::Net,
+    /// had an input other than Sync messages, registration and the neutral local calls
+    tainted: bool,
+    stamped: BTreeSet<u8>,
+    registered: BTreeSet<u8>,
+    /// distinct update values received inside Sync messages
+    recv: BTreeSet<Val>,
+    mono: Mono,
+    last_view: Vec<Val>,
+    hist: Vec<String>,
+    announced: Vec<u64>,
+    /// greatest sender_time handled so far, per sender
+    times: BTreeMap<u8, u64>,
+    /// senders in the order of their first Sync (probe only)
+    order: Vec<(u8, u8)>,
+    last_id: u64,
+}
+
+/// what an untainted twin held when it first had a given (received set, registered set)
+struct SeenD {
+    view: Vec<Val>,
+    stamped: BTreeSet<u8>,
+    twin: usize,
+    step: usize,
+    hist: String,
+    order: Vec<(u8, u8)>,
+}
+
+/// Configuration D (`Mode::Twins`): 2-4 real `GossipMembershipManager`s with the SAME
+/// identity n0, configuration and up-front registration - several nodes in the same
+/// position - that are handed whole `Sync` messages built from the case's multiset
+/// (`MsgSync{r, from, items, time}`: any sender, any sub-multiset, any sender_time), each
+/// twin in an order, repetition and grouping of its own, interleaved with `add_peer`
+/// at arbitrary points and the other local entry points. Clause (1) is judged between
+/// twins that have received the same set of update values and registered the same
+/// members (see `compare_views`); a twin that received an Alive / Suspect / PingAck
+/// message or executed `suspect_node` (the statement's local refute / suspect /
+/// mark-healthy / fail events) leaves the comparison, as in configuration A. Clauses
+/// (2) and (3) are judged on every twin after every step.
+fn run_d(case: &Case, ctx: &Arc<RunCtx>) -> RunOut {
+    let mut out = RunOut::default();
+    let members = case.members.clamp(2, 4) as usize;
+    let ntw = case.replicas.clamp(2, 4) as usize;
+    let all: Vec<String> = (0..members).map(name).collect();
+    let rt = match tokio::runtime::Builder::new_current_thread().build() {
+        Ok(rt) => rt,
+        Err(e) => {
+            out.harness_error = Some(format!("tokio current-thread runtime: {e}"));
+            return out;
+        },
+    };
+    let drain = |rt: &tokio::runtime::Runtime| -> Result<(), String> {
+        rt.block_on(async {
+            for _ in 0..4 {
+                tokio::task::yield_now().await;
+            }
+        });
+        let alive = rt.metrics().num_alive_tasks();
+        if alive != 0 {
+            return Err(format!("{alive} spawned task(s) still pending after drain (a send suspended)"));
+        }
+        Ok(())
+    };
+    let cfg = GossipConfig {
+        fanout: case.fanout.clamp(1, 3) as usize,
+        gossip_interval_ms: 200,
+        suspicion_timeout_ms: u64::from(case.susp_ms.max(1)),
+        max_states_per_message: case.max_states.max(1) as usize,
+        geometric_routing: false,
+        require_signatures: false,
+        ..GossipConfig::default()
+    };
+    let interval_ms = cfg.gossip_interval_ms;
+    let (vals, announced_ms) = effective_vals(case, members);
+    let mut twins: Vec<Twin> = (0..ntw)
+        .map(|_| {
+            let net = new_net();
+            let mgr = GossipMembershipManager::new(name(0), cfg.clone(), SimTransport::new(&name(0), &all, &net));
+            let mut registered = BTreeSet::new();
+            for (j, p) in all.iter().enumerate().skip(1) {
+                if pre_registered(case, 0, j) {
+                    mgr.add_peer(p.clone());
+                    registered.insert(j as u8);
+                }
+            }
+            Twin {
+                mgr,
+                net,
+                tainted: false,
+                stamped: BTreeSet::new(),
+                registered,
+                recv: BTreeSet::new(),
+                mono: Mono::default(),
+                last_view: Vec::new(),
+                hist: Vec::new(),
+                announced: announced_ms.clone(),
+                times: BTreeMap::new(),
+                order: Vec::new(),
+                last_id: 0,
+            }
+        })
+        .collect();
+    ctx.event(&format!(
+        "D members={members} twins={ntw} suspicion_timeout_ms={} pre_registered={:#06x} multiset={}",
+        case.susp_ms.max(1),
+        case.pre_peers,
+        vals.iter().enumerate().map(|(i, v)| format!("#{i}={}", show(&[*v]))).collect::<Vec<_>>().join(" ")
+    ));
+    // a member other than n0 (senders / reporters of messages)
+    let peer = |x: u8| 1 + (x as usize % (members - 1));
+    let mut seen: BTreeMap<(Vec<Val>, Vec<u8>), SeenD> = BTreeMap::new();
+    let mut comparisons = 0u64;
+
+    for (sn, step) in case.steps.iter().enumerate() {
+        let r = match step {
+            Step::MsgSync { r, .. }
+            | Step::MsgAlive { r, .. }
+            | Step::MsgSuspect { r, .. }
+            | Step::MsgPingAck { r, .. }
+            | Step::MsgBidir { r, .. }
+            | Step::AddPeer { r, .. }
+            | Step::LocalCall { r, .. }
+            | Step::SuspectNode { r, .. }
+            | Step::Round { r } => *r as usize % ntw,
+            Step::Advance { ms } => {
+                ctx.advance_ms(u64::from(*ms));
+                ctx.event(&format!("s{sn} advance {ms}ms"));
+                continue;
+            },
+            _ => continue, // steps of the other configurations: nothing to act on
+        };
+        let tw = &mut twins[r];
+        let op: &'static str;
+        let line: String;
+        {
+            let _e = rt.enter();
+            match step {
+                Step::MsgSync { from, items, time, .. } => {
+                    let f = peer(*from);
+                    let bv: Vec<Val> = items.iter().map(|i| *i as usize).filter(|i| *i < vals.len()).map(|i| vals[i]).collect();
+                    let states: Vec<GossipNodeState> =
+                        bv.iter().map(|(m, h, inc, ts)| GossipNodeState::with_wall_time(name(*m as usize), health(*h), *ts, *inc, 0)).collect();
+                    if states.len() > 1 {
+                        ctx.fault_fired("batched");
+                    }
+                    if !bv.is_empty() && bv.iter().all(|v| tw.recv.contains(v)) {
+                        ctx.probe("twin_duplicate_sync");
+                        ctx.fault_fired("duplicate");
+                    }
+                    let t0 = tw.times.entry(f as u8).or_insert(0);
+                    if u64::from(*time) < *t0 {
+                        // a Sync of one sender overtaken by a later one of the same sender
+                        ctx.probe("twin_sync_older_than_previous_from_sender");
+                        ctx.fault_fired("reordered");
+                        if bv.iter().any(|v| !tw.recv.contains(v)) {
+                            ctx.probe("twin_overtaken_sync_carries_new_update");
+                        }
+                    }
+                    *t0 = (*t0).max(u64::from(*time));
+                    tw.order.push((f as u8, *time));
+                    tw.stamped.insert(f as u8);
+                    for v in &bv {
+                        tw.recv.insert(*v);
+                    }
+                    line = format!("Sync(from n{f}, time {time}, {})", show(&bv));
+                    tw.mgr.handle_gossip(GossipMessage::Sync { sender: name(f), states, sender_time: u64::from(*time) });
+                    op = "sync";
+                },
+                Step::MsgAlive { m, inc, .. } => {
+                    let m = *m as usize % members;
+                    // the Alive message was sent by m: m has announced inc
+                    tw.announced[m] = tw.announced[m].max(u64::from(*inc));
+                    tw.tainted = true;
+                    line = format!("Alive(n{m} inc{inc})");
+                    tw.mgr.handle_gossip(GossipMessage::Alive { node_id: name(m), incarnation: u64::from(*inc) });
+                    op = "alive";
+                },
+                Step::MsgSuspect { from, m, inc, .. } => {
+                    let (f, m) = (peer(*from), *m as usize % members);
+                    tw.tainted = true;
+                    line = format!("Suspect(n{m} inc{inc} by n{f})");
+                    tw.mgr.handle_gossip(GossipMessage::Suspect { reporter: name(f), suspect: name(m), incarnation: u64::from(*inc) });
+                    op = "suspect";
+                },
+                Step::MsgPingAck { from, m, ok, .. } => {
+                    let (f, m) = (peer(*from), *m as usize % members);
+                    tw.tainted = true;
+                    line = format!("PingAck(n{f} about n{m} ok={ok})");
+                    tw.mgr.handle_gossip(GossipMessage::PingAck { origin: name(f), target: name(m), sequence: 0, success: *ok });
+                    op = "pingack";
+                },
+                Step::MsgBidir { from, id, ack, .. } => {
+                    let f = peer(*from);
+                    let g = if *ack {
+                        GossipMessage::BidirectionalAck { origin: name(0), probe_id: u64::from(*id), responder: name(f) }
+                    } else {
+                        GossipMessage::BidirectionalProbe { origin: name(f), probe_id: u64::from(*id), timestamp: 0 }
+                    };
+                    line = format!("Bidirectional{}(n{f} #{id})", if *ack { "Ack" } else { "Probe" });
+                    tw.mgr.handle_gossip(g);
+                    op = "bidir";
+                },
+                Step::SuspectNode { m, .. } => {
+                    let m = *m as usize % members;
+                    if m == 0 {
+                        continue; // a node does not suspect itself
+                    }
+                    tw.tainted = true;
+                    line = format!("suspect_node(n{m})");
+                    let _ = now_or_never(tw.mgr.suspect_node(&name(m)));
+                    op = "suspect_node";
+                },
+                Step::Round { .. } => {
+                    // sends a Sync of its own and expires suspicions; suspicions exist only on tainted twins
+                    ctx.advance_ms(interval_ms);
+                    line = "gossip_round".to_string();
+                    let _ = now_or_never(tw.mgr.gossip_round());
+                    op = "gossip_round";
+                },
+                Step::AddPeer { m, .. } => {
+                    let m = *m as usize % members;
+                    if tw.mgr.node_state(&name(m)).is_none() {
+                        // the placeholder will carry this twin's own time
+                        tw.stamped.insert(m as u8);
+                    } else if m != 0 && !tw.registered.contains(&(m as u8)) {
+                        ctx.probe("twin_add_peer_of_known_member");
+                    }
+                    tw.registered.insert(m as u8);
+                    line = format!("add_peer(n{m})");
+                    tw.mgr.add_peer(name(m));
+                    op = "add_peer";
+                },
+                Step::LocalCall { m, kind, .. } => {
+                    let m = *m as usize % members;
+                    let what = local_call(&tw.mgr, &name(m), *kind);
+                    ctx.probe("twin_local_call");
+                    line = format!("{what}(n{m})");
+                    op = "local_call";
+                },
+                _ => continue,
+            }
+        }
+        if let Err(e) = drain(&rt) {
+            out.harness_error = Some(e);
+            return out;
+        }
+        // n0's own announcements, read off this twin's wire: Alive{n0, i}
+        {
+            let g = tw.net.lock().unwrap();
+            for f in g.inflight.iter().filter(|f| f.id > tw.last_id) {
+                if let Message::Gossip(GossipMessage::Alive { node_id, incarnation }) = &f.msg {
+                    if *node_id == f.from && member_idx(node_id) == 0 {
+                        tw.announced[0] = tw.announced[0].max(*incarnation);
+                    }
+                }
+            }
+            tw.last_id = g.next_id;
+        }
+        let view = view_of(tw.mgr.membership_view().iter());
+        let lam = tw.mgr.lamport_time();
+        ctx.event(&format!("s{sn} twin{r} {line} -> {} L={lam}", show(&view)));
+        ctx.fp(&format!("D{op}{}", u8::from(view != tw.last_view)));
+        tw.hist.push(line);
+        depth_probes(ctx, 'D', &tw.last_view, &view);
+        tw.last_view = view.clone();
+        {
+            let hist = tw.hist.clone();
+            let h = move || hist.join("; ");
+            let announced = tw.announced.clone();
+            if let Some(v) = check_backwards("D", op, r, &mut tw.mono, &view, lam, &announced, &h) {
+                out.violation = Some(v);
+                out.nontrivial = true;
+                return out;
+            }
+        }
+        // clause (1), see `compare_views`
+        if tw.tainted {
+            continue;
+        }
+        let key = (tw.recv.iter().copied().collect::<Vec<Val>>(), tw.registered.iter().copied().collect::<Vec<u8>>());
+        match seen.get(&key) {
+            None => {
+                seen.insert(key, SeenD { view, stamped: tw.stamped.clone(), twin: r, step: sn, hist: tw.hist.join("; "), order: tw.order.clone() });
+            },
+            Some(s0) => {
+                if key.0.is_empty() {
+                    continue; // nothing received yet
+                }
+                comparisons += 1;
+                if s0.twin != r {
+                    ctx.probe("twin_same_set_compared");
+                    if s0.order != tw.order {
+                        ctx.probe("twin_same_set_compared_after_other_order_or_grouping");
+                    }
+                }
+                let a = Side { who: format!("twin{} after step {}", s0.twin, s0.step), view: &s0.view, stamped: &s0.stamped, hist: s0.hist.clone() };
+                let b = Side { who: format!("twin{r} after step {sn}"), view: &view, stamped: &tw.stamped, hist: tw.hist.join("; ") };
+                let desc = format!("{} (registered: {:?})", show(&key.0), key.1);
+                if let Some(v) = compare_views("D", &desc, &a, &b) {
+                    out.violation = Some(v);
+                    out.nontrivial = true;
+                    return out;
+                }
+            },
+        }
+    }
+    out.inner_evals = comparisons;
+    out.nontrivial = comparisons > 0;
+    out
 }
 
 // ---------------------------------------------------------------------------
@@ -1333,22 +2147,52 @@ fn gen_a(rng: &mut Rng, mode: Mode) -> Case {
             }
         },
     }
-    Case { mode, members, replicas, updates, steps, fanout: 1, max_states: 20, susp_ms: 500, threads: Vec::new(), schedule: Vec::new() }
+    Case {
+        mode,
+        members,
+        replicas,
+        updates,
+        steps,
+        fanout: 1,
+        max_states: 20,
+        susp_ms: 500,
+        threads: Vec::new(),
+        schedule: Vec::new(),
+        pre_peers: u16::MAX,
+        flush: 0,
+    }
+}
+
+/// who is registered before the first step: everybody (the cluster bootstrap), or any subset
+fn gen_pre_peers(rng: &mut Rng) -> u16 {
+    match rng.below(4) {
+        0..=1 => u16::MAX,
+        2 => rng.below(1 << 16) as u16,
+        _ => (rng.below(1 << 16) | rng.below(1 << 16)) as u16,
+    }
 }
 
 fn gen_b(rng: &mut Rng) -> Case {
     let n = rng.range(2, 4) as u8;
     let susp_ms = *rng.pick(&[300u32, 500, 1000]);
-    let n_steps = rng.range(10, 45) as usize;
+    let n_steps = rng.range(10, 50) as usize;
+    // suspect_node makes the suspecting manager's input more than "updates only": some runs go without
+    let suspects = rng.chance(2, 3);
     let mut steps = Vec::new();
     for _ in 0..n_steps {
-        let s = match rng.below(20) {
-            0..=4 => Step::Round { r: rng.below(u64::from(n)) as u8 },
+        let r_of = |rng: &mut Rng| rng.below(u64::from(n)) as u8;
+        let s = match rng.below(28) {
+            0..=4 => Step::Round { r: r_of(rng) },
             5..=12 => Step::NetDeliver { pick: if rng.chance(1, 2) { 0 } else { rng.below(8) as u8 } },
-            13..=14 => Step::SuspectNode { r: rng.below(u64::from(n)) as u8, m: rng.below(u64::from(n)) as u8 },
+            13..=14 if suspects => Step::SuspectNode { r: r_of(rng), m: r_of(rng) },
+            13..=14 => Step::Round { r: r_of(rng) },
             15..=16 => Step::Advance { ms: *rng.pick(&[100u32, 300, 600, 1200]) },
             17 => Step::NetDrop { pick: rng.below(8) as u8 },
-            _ => Step::NetDup { pick: rng.below(8) as u8 },
+            18..=19 => Step::NetDup { pick: rng.below(8) as u8 },
+            20..=21 => Step::AddPeer { r: r_of(rng), m: r_of(rng) },
+            22 => Step::LocalCall { r: r_of(rng), m: r_of(rng), kind: rng.below(u64::from(LOCAL_KINDS)) as u8 },
+            23..=26 => Step::ShadowDeliver { r: r_of(rng), pick: if rng.chance(1, 2) { 0 } else { rng.below(8) as u8 } },
+            _ => Step::ShadowDup { r: r_of(rng), pick: rng.below(8) as u8 },
         };
         steps.push(s);
     }
@@ -1363,26 +2207,34 @@ fn gen_b(rng: &mut Rng) -> Case {
         susp_ms,
         threads: Vec::new(),
         schedule: Vec::new(),
+        pre_peers: gen_pre_peers(rng),
+        flush: rng.below(3) as u8,
     }
 }
 
 /// one call into the manager of configuration C
 fn gen_c_op(rng: &mut Rng, members: u8, n_upd: usize, inc_max: u64) -> Step {
     let m_of = |rng: &mut Rng| rng.below(u64::from(members)) as u8;
-    match rng.below(100) {
-        0..=34 => {
-            // any subset of the multiset in any grouping, repeated at will; an empty Sync is legal too
-            let k = if n_upd == 0 { 0 } else { *rng.pick(&[0usize, 1, 1, 2, 2, 3, 4]) };
-            let items: Vec<u8> = (0..k).map(|_| rng.below(n_upd as u64) as u8).collect();
-            Step::MsgSync { from: rng.below(3) as u8, items, time: rng.below(5) as u8 }
-        },
-        35..=54 => Step::MsgAlive { m: m_of(rng), inc: rng.below(inc_max + 3) as u8 },
-        55..=66 => Step::MsgSuspect { from: rng.below(3) as u8, m: m_of(rng), inc: rng.below(inc_max + 2) as u8 },
+    match rng.below(112) {
+        0..=34 => gen_sync(rng, 0, n_upd),
+        35..=54 => Step::MsgAlive { r: 0, m: m_of(rng), inc: rng.below(inc_max + 3) as u8 },
+        55..=66 => Step::MsgSuspect { r: 0, from: rng.below(3) as u8, m: m_of(rng), inc: rng.below(inc_max + 2) as u8 },
         67..=76 => Step::SuspectNode { r: 0, m: m_of(rng) },
-        77..=84 => Step::MsgPingAck { from: rng.below(3) as u8, m: m_of(rng), ok: rng.chance(3, 4) },
+        77..=84 => Step::MsgPingAck { r: 0, from: rng.below(3) as u8, m: m_of(rng), ok: rng.chance(3, 4) },
         85..=92 => Step::Round { r: 0 },
-        _ => Step::Advance { ms: *rng.pick(&[100u32, 300, 600, 1200]) },
+        93..=99 => Step::Advance { ms: *rng.pick(&[100u32, 300, 600, 1200]) },
+        100..=106 => Step::AddPeer { r: 0, m: m_of(rng) },
+        107..=109 => Step::LocalCall { r: 0, m: m_of(rng), kind: rng.below(u64::from(LOCAL_KINDS)) as u8 },
+        _ => Step::MsgBidir { r: 0, from: rng.below(3) as u8, id: rng.below(3) as u8, ack: rng.chance(1, 2) },
     }
+}
+
+/// a whole Sync message: any sender, any sub-multiset in any grouping, repeated at will (an empty Sync is legal too),
+/// any sender_time from a tiny range (so that Syncs of one sender arrive in and out of the order of their times)
+fn gen_sync(rng: &mut Rng, r: u8, n_upd: usize) -> Step {
+    let k = if n_upd == 0 { 0 } else { *rng.pick(&[0usize, 1, 1, 2, 2, 3, 4]) };
+    let items: Vec<u8> = (0..k).map(|_| rng.below(n_upd as u64) as u8).collect();
+    Step::MsgSync { r, from: rng.below(3) as u8, items, time: rng.below(5) as u8 }
 }
 
 fn gen_c(rng: &mut Rng) -> Case {
@@ -1410,6 +2262,117 @@ fn gen_c(rng: &mut Rng) -> Case {
         susp_ms: *rng.pick(&[300u32, 500, 1000]),
         threads,
         schedule,
+        pre_peers: gen_pre_peers(rng),
+        flush: 0,
+    }
+}
+
+/// configuration D: a pool of whole Sync messages; every twin receives the pool in a permutation of its own,
+/// with repetitions, sometimes re-grouped into other messages (other senders, times, cuts); registrations
+/// and neutral local calls at arbitrary points; in some runs a few of the statement's local events
+fn gen_d(rng: &mut Rng) -> Case {
+    let members = rng.range(2, 4) as u8;
+    let twins = rng.range(2, 4) as u8;
+    let n_upd = rng.range(1, 8) as usize;
+    let (updates, inc_max) = gen_updates(rng, members, n_upd);
+    let pre_peers = gen_pre_peers(rng);
+    let pool: Vec<Step> = (0..rng.range(1, 6)).map(|_| gen_sync(rng, 0, n_upd)).collect();
+    let m_of = |rng: &mut Rng| rng.below(u64::from(members)) as u8;
+    let mut plans: Vec<Vec<Step>> = Vec::new();
+    for r in 0..twins {
+        let mut plan: Vec<Step> = pool.clone();
+        if rng.chance(1, 4) {
+            // other grouping of the same updates: all items of the pool, cut anew
+            let mut items: Vec<u8> = pool.iter().flat_map(|s| if let Step::MsgSync { items, .. } = s { items.clone() } else { Vec::new() }).collect();
+            for i in (1..items.len()).rev() {
+                let j = rng.usize_below(i + 1);
+                items.swap(i, j);
+            }
+            plan.clear();
+            let mut i = 0;
+            while i < items.len() {
+                let end = (i + rng.range(1, 4) as usize).min(items.len());
+                plan.push(Step::MsgSync { r, from: rng.below(3) as u8, items: items[i..end].to_vec(), time: rng.below(5) as u8 });
+                i = end;
+            }
+        }
+        for i in (1..plan.len()).rev() {
+            let j = rng.usize_below(i + 1);
+            plan.swap(i, j);
+        }
+        if !plan.is_empty() {
+            for _ in 0..rng.below(3) {
+                let x = plan[rng.usize_below(plan.len())].clone();
+                let pos = rng.usize_below(plan.len() + 1);
+                plan.insert(pos, x);
+            }
+        }
+        // registration of the members not registered up front (mostly), and of registered ones again (sometimes)
+        for m in 1..members {
+            let pre = (pre_peers >> m) & 1 == 1;
+            if (!pre && rng.chance(3, 4)) || (pre && rng.chance(1, 8)) {
+                let pos = rng.usize_below(plan.len() + 1);
+                plan.insert(pos, Step::AddPeer { r, m });
+            }
+        }
+        if rng.chance(1, 3) {
+            let pos = rng.usize_below(plan.len() + 1);
+            let s = match rng.below(4) {
+                0 => Step::Round { r },
+                1 => Step::MsgBidir { r, from: rng.below(3) as u8, id: rng.below(3) as u8, ack: rng.chance(1, 2) },
+                _ => Step::LocalCall { r, m: m_of(rng), kind: rng.below(u64::from(LOCAL_KINDS)) as u8 },
+            };
+            plan.insert(pos, s);
+        }
+        if rng.chance(1, 5) {
+            // the statement's local events on this twin (it leaves the comparison of clause (1))
+            for _ in 0..rng.range(1, 3) {
+                let pos = rng.usize_below(plan.len() + 1);
+                let s = match rng.below(6) {
+                    0..=1 => Step::MsgAlive { r, m: m_of(rng), inc: rng.below(inc_max + 3) as u8 },
+                    2 => Step::MsgSuspect { r, from: rng.below(3) as u8, m: m_of(rng), inc: rng.below(inc_max + 2) as u8 },
+                    3 => Step::SuspectNode { r, m: m_of(rng) },
+                    4 => Step::MsgPingAck { r, from: rng.below(3) as u8, m: m_of(rng), ok: rng.chance(3, 4) },
+                    _ => Step::Advance { ms: *rng.pick(&[300u32, 600, 1200]) },
+                };
+                plan.insert(pos, s);
+                if rng.chance(1, 2) {
+                    plan.push(Step::Round { r });
+                }
+            }
+        }
+        for s in &mut plan {
+            if let Step::MsgSync { r: rr, .. } = s {
+                *rr = r;
+            }
+        }
+        plans.push(plan);
+    }
+    // interleave the plans, keeping each twin's order
+    let mut steps: Vec<Step> = Vec::new();
+    let mut cursors = vec![0usize; plans.len()];
+    loop {
+        let open: Vec<usize> = (0..plans.len()).filter(|p| cursors[*p] < plans[*p].len()).collect();
+        if open.is_empty() {
+            break;
+        }
+        let p = open[rng.usize_below(open.len())];
+        steps.push(plans[p][cursors[p]].clone());
+        cursors[p] += 1;
+    }
+    Case {
+        mode: Mode::Twins,
+        members,
+        replicas: twins,
+        updates,
+        steps,
+        fanout: rng.range(1, 3) as u8,
+        max_states: 20,
+        susp_ms: *rng.pick(&[300u32, 500, 1000]),
+        threads: Vec::new(),
+        schedule: Vec::new(),
+        pre_peers,
+        flush: 0,
     }
 }
 
@@ -1434,27 +2397,31 @@ fn without_update(case: &Case, k: usize) -> Case {
 fn simpler_c_step(s: &Step) -> Vec<Step> {
     let mut v = Vec::new();
     match s {
-        Step::MsgSync { from, items, time } => {
+        Step::MsgSync { r, from, items, time } => {
             for it in drop_chunks(items) {
-                v.push(Step::MsgSync { from: *from, items: it, time: *time });
+                v.push(Step::MsgSync { r: *r, from: *from, items: it, time: *time });
             }
             if *time > 0 {
-                v.push(Step::MsgSync { from: *from, items: items.clone(), time: 0 });
+                v.push(Step::MsgSync { r: *r, from: *from, items: items.clone(), time: 0 });
+            }
+            if *time > 1 {
+                v.push(Step::MsgSync { r: *r, from: *from, items: items.clone(), time: time - 1 });
             }
             if *from > 0 {
-                v.push(Step::MsgSync { from: 0, items: items.clone(), time: *time });
+                v.push(Step::MsgSync { r: *r, from: 0, items: items.clone(), time: *time });
             }
         },
-        Step::MsgAlive { m, inc } if *inc > 0 => v.push(Step::MsgAlive { m: *m, inc: inc - 1 }),
-        Step::MsgSuspect { from, m, inc } => {
+        Step::MsgAlive { r, m, inc } if *inc > 0 => v.push(Step::MsgAlive { r: *r, m: *m, inc: inc - 1 }),
+        Step::MsgSuspect { r, from, m, inc } => {
             if *inc > 0 {
-                v.push(Step::MsgSuspect { from: *from, m: *m, inc: inc - 1 });
+                v.push(Step::MsgSuspect { r: *r, from: *from, m: *m, inc: inc - 1 });
             }
             if *from > 0 {
-                v.push(Step::MsgSuspect { from: 0, m: *m, inc: *inc });
+                v.push(Step::MsgSuspect { r: *r, from: 0, m: *m, inc: *inc });
             }
         },
-        Step::MsgPingAck { from, m, ok } if *from > 0 => v.push(Step::MsgPingAck { from: 0, m: *m, ok: *ok }),
+        Step::MsgPingAck { r, from, m, ok } if *from > 0 => v.push(Step::MsgPingAck { r: *r, from: 0, m: *m, ok: *ok }),
+        Step::LocalCall { r, m, kind } if *kind % LOCAL_KINDS != 11 => v.push(Step::LocalCall { r: *r, m: *m, kind: 11 }),
         _ => {},
     }
     v
@@ -1476,9 +2443,10 @@ impl Scenario for C17 {
     }
     fn generate(&self, rng: &mut Rng, _tier: Tier, _index: u64) -> Case {
         match rng.below(20) {
-            0..=8 => gen_a(rng, Mode::Merge),
-            9..=13 => gen_a(rng, Mode::Local),
-            14..=16 => gen_b(rng),
+            0..=6 => gen_a(rng, Mode::Merge),
+            7..=10 => gen_a(rng, Mode::Local),
+            11..=13 => gen_b(rng),
+            14..=16 => gen_d(rng),
             _ => gen_c(rng),
         }
     }
@@ -1492,10 +2460,12 @@ impl Scenario for C17 {
             Mode::Local => "local",
             Mode::Manager => "manager",
             Mode::Threads => "threads",
+            Mode::Twins => "twins",
         });
         match case.mode {
             Mode::Manager => run_b(case, ctx),
             Mode::Threads => run_c(case, ctx),
+            Mode::Twins => run_d(case, ctx),
             _ => run_a(case, ctx),
         }
     }
@@ -1555,7 +2525,7 @@ impl Scenario for C17 {
             }
         }
         // renumber a replica to an unused smaller id (lets `replicas - 1` succeed afterwards)
-        if case.mode != Mode::Manager && case.mode != Mode::Threads {
+        if case.mode == Mode::Merge || case.mode == Mode::Local {
             let n = case.replicas.max(1);
             let mut used = BTreeSet::new();
             for s in &case.steps {
@@ -1608,7 +2578,7 @@ impl Scenario for C17 {
             c.replicas -= 1;
             v.push(c);
         }
-        if case.members > 1 && case.mode != Mode::Manager && (case.mode != Mode::Threads || case.members > 2) {
+        if case.members > 1 && case.mode != Mode::Manager && (!matches!(case.mode, Mode::Threads | Mode::Twins) || case.members > 2) {
             let mut c = case.clone();
             c.members -= 1;
             v.push(c);
@@ -1616,6 +2586,24 @@ impl Scenario for C17 {
         if case.mode == Mode::Local {
             let mut c = case.clone();
             c.mode = Mode::Merge;
+            v.push(c);
+        }
+        // everybody registered up front; one registration less
+        if case.pre_peers != u16::MAX && case.mode != Mode::Merge && case.mode != Mode::Local {
+            let mut c = case.clone();
+            c.pre_peers = u16::MAX;
+            v.push(c);
+            for b in 0..16 {
+                if (case.pre_peers >> b) & 1 == 0 {
+                    let mut c = case.clone();
+                    c.pre_peers |= 1 << b;
+                    v.push(c);
+                }
+            }
+        }
+        if case.flush != 0 {
+            let mut c = case.clone();
+            c.flush = 0;
             v.push(c);
         }
         // simpler values
@@ -1649,6 +2637,16 @@ impl Scenario for C17 {
                     c.steps[i] = Step::Announce { r: *r, bump: false };
                     v.push(c);
                 },
+                Step::ShadowDeliver { r, pick } if *pick > 0 => {
+                    let mut c = case.clone();
+                    c.steps[i] = Step::ShadowDeliver { r: *r, pick: 0 };
+                    v.push(c);
+                },
+                Step::ShadowDup { r, pick } => {
+                    let mut c = case.clone();
+                    c.steps[i] = Step::ShadowDeliver { r: *r, pick: *pick };
+                    v.push(c);
+                },
                 Step::NetDeliver { pick } | Step::NetDup { pick } | Step::NetDrop { pick } if *pick > 0 => {
                     let mut c = case.clone();
                     c.steps[i] = match s {
@@ -1660,7 +2658,7 @@ impl Scenario for C17 {
                 },
                 _ => {},
             }
-            if case.mode == Mode::Threads {
+            if matches!(case.mode, Mode::Threads | Mode::Twins | Mode::Manager) {
                 for simpler in simpler_c_step(s) {
                     let mut c = case.clone();
                     c.steps[i] = simpler;
@@ -1716,17 +2714,31 @@ impl Scenario for C17 {
             "thr_sync_changed_view",
             "thr_alive_changed_view",
             "thr_failed_recorded",
+            // registration at arbitrary points (B, C, D) and the other local entry points
+            "mgr_add_peer_of_known_member",
+            "thr_add_peer_of_known_member",
+            "twin_add_peer_of_known_member",
+            "mgr_local_call",
+            "twin_local_call",
+            // clause (1) between real managers: B (manager and shadow), D (twins)
+            "mgr_same_set_compared_after_reordering",
+            "mgr_shadow_sync_older_than_previous_from_sender",
+            "twin_same_set_compared_after_other_order_or_grouping",
+            "twin_duplicate_sync",
+            "twin_overtaken_sync_carries_new_update",
+            "twin_incarnation_raised",
         ]
     }
     fn rule(&self) -> String {
-        "A case is (Merge/Local) a multiset of <=12 node-state updates over 2-4 members (incarnation 0..2, timestamp 0..3, all four health values, ties injected on purpose) plus, per replica (2-4 real LWWMembershipState), a delivery plan = permutation + duplicates + batching given as explicit merge steps, in Local mode interleaved with suspect/fail/refute/mark_healthy/update_local and replica-to-replica sync steps; or (Manager) 2-4 real GossipMembershipManager on SimTransport driven by 10-45 steps (gossip_round, suspect_node, clock advance, deliver/drop/duplicate of a picked in-flight message); or (Threads) ONE real GossipMembershipManager n0 with 1-3 peers that is handed the case's updates as the messages a node receives (Sync{sender, any sub-multiset of <=8 updates, sender_time}, Alive, Suspect, PingAck) and local events (suspect_node, gossip_round incl. suspicion expiry, clock advance): 0-4 calls sequentially, then 1-3 scheduled threads with 1-5 calls each into the same manager, switched at the manager's lock acquisitions according to the schedule in the case; clauses (2)/(3) judged on the view each thread reads after each completed call. inner_enumerated_points counts same-received-set view comparisons (clause 1). Non-trivial: Merge = at least one such comparison was made; Local = at least one local event took effect; Manager = at least one delivered Sync changed the receiver's view; Threads = the observed view changed at least once and (with 2+ threads) two calls overlapped. Distinct: hash of (mode, sequence of step kinds with batch size / changed-count / outcome class).".into()
+        "A case is (Merge/Local) a multiset of <=12 node-state updates over 2-4 members (incarnation 0..2, timestamp 0..3, all four health values, ties injected on purpose) plus, per replica (2-4 real LWWMembershipState), a delivery plan = permutation + duplicates + batching given as explicit merge steps, in Local mode interleaved with suspect/fail/refute/mark_healthy/update_local and replica-to-replica sync steps; or (Manager) 2-4 real GossipMembershipManager on SimTransport driven by 10-45 steps (gossip_round, suspect_node, clock advance, deliver/drop/duplicate of a picked in-flight message); or (Threads) ONE real GossipMembershipManager n0 with 1-3 peers that is handed the case's updates as the messages a node receives (Sync{sender, any sub-multiset of <=8 updates, sender_time}, Alive, Suspect, PingAck) and local events (suspect_node, gossip_round incl. suspicion expiry, clock advance): 0-4 calls sequentially, then 1-3 scheduled threads with 1-5 calls each into the same manager, switched at the manager's lock acquisitions according to the schedule in the case; clauses (2)/(3) judged on the view each thread reads after each completed call; or (Twins) 2-4 real GossipMembershipManager with the same identity n0 that are handed a pool of 1-6 whole Sync messages (any sender, sub-multiset of <=8 updates, sender_time 0..4), each twin in its own permutation with repetitions and sometimes its own re-grouping of the same updates into other messages, clause (1) judged between twins with the same received set of update values and the same registered members. In Manager, Threads and Twins the members registered up front are any subset (pre_peers), add_peer is a step at arbitrary points, and so are the remaining public local entry points (heal progress, bidirectional probes, flap records, callback registration, readers, shutdown); in Manager every manager has a shadow (same identity/configuration/registration) that receives the manager's inputs in an order of its own (ShadowDeliver/ShadowDup picks, flush order at the end) and clause (1) is judged between manager and shadow whenever the shadow has caught up and neither had a local suspect/refute/mark-healthy input. inner_enumerated_points counts same-received-set view comparisons (clause 1). Non-trivial: Merge = at least one such comparison was made; Local = at least one local event took effect; Manager = at least one delivered Sync changed the receiver's view; Threads = the observed view changed at least once and (with 2+ threads) two calls overlapped; Twins = at least one comparison. Distinct: hash of (mode, sequence of step kinds with batch size / changed-count / outcome class).".into()
     }
     fn components(&self) -> Value {
         json!({
             "real": [
                 "tensor_chain::gossip::LWWMembershipState (merge, sync_time, suspect, fail, refute, mark_healthy, update_local, states_for_gossip)",
                 "tensor_chain::gossip::GossipNodeState::supersedes",
-                "tensor_chain::gossip::GossipMembershipManager (new, add_peer, gossip_round, suspect_node, handle_gossip: Sync/Suspect/Alive/PingReq/PingAck, expire_suspicions, broadcast_alive)",
+                "tensor_chain::gossip::GossipMembershipManager (new, add_peer at any point, gossip_round, suspect_node, handle_gossip: Sync/Suspect/Alive/PingReq/PingAck/BidirectionalProbe/BidirectionalAck, expire_suspicions, broadcast_alive, record_heal_progress, is_heal_confirmed, clear_heal_progress(_batch), reset_heal_progress, send_bidirectional_probe, expire_bidirectional_probes, reset_stable_flap_records, clear_connectivity, register_callback, readers, shutdown)",
+                "configuration B: a shadow manager per manager, configuration D: 2-4 twin managers (same identity): real GossipMembershipManager instances whose sends go to a network nobody reads",
                 "tokio current-thread runtime (no I/O, no time driver) as executor of the manager's tokio::spawn'ed sends, drained after every step (configuration C: after every sequential step and after the threads have finished)",
                 "configuration C: the manager's own RwLocks (state, suspicions, known_peers, callbacks, flap_tracker) through tensor_chain::sync_compat, whose acquisitions are the schedule points `tensor_chain.lock`"
             ],
@@ -1748,6 +2760,8 @@ impl Scenario for C17 {
             "GossipMembershipManager::run (tokio select!/sleep loop) is not used: the step list calls gossip_round itself".into(),
             "configuration C: overlapping calls of several threads into one manager are deliveries 'in any order and grouping, interleaved with local events' at the granularity of the manager's own critical sections (the manager is Sync, all entry points take &self, run() and the transport's receive tasks call it from different threads), so its violations are verdicts; a node's view is what membership_view()/lamport_time() return to a caller between two calls".into(),
             "configuration C: an Alive{m, inc} message counts as m's announcement of inc from the moment the delivering call starts".into(),
+            "clause (1) between real managers (B: manager/shadow, D: twins): 'the same set of membership updates' = the same set of node-state values received inside Sync messages, by managers with the same identity, configuration and registered members and no other input; judged are the incarnation of every member, and the health of every member whose entry neither manager has stamped with its own clock (handle_sync stamps the sender Healthy at local time + 1, a late add_peer of an unknown member writes its placeholder at local time + 1: local observations whose time depends on the delivery order, not updates of the set)".into(),
+            "handle_signed_gossip / with_signing / with_geometric are not driven (they wrap handle_gossip and target selection; signatures and geometry are outside C17's statement)".into(),
         ]
     }
 }
